@@ -27,11 +27,13 @@ Open Scope Z_scope.
 (* ---------- values ---------- *)
 (* VNum z: the number with integer value z, |z| <= 2^53 (never -0);
    VDbl bits: any other double by bit pattern (NaN collapsed) *)
-(* VGet id p is not a value a script sees: a property whose "value" is VGet id p is an accessor
-   property whose getter logs [8; id] and returns the number p, and which has no setter
+(* VGet id p fx j n is not a value a script sees: a property whose "value" is VGet ... is an accessor
+   property whose getter logs [8; id], performs the side effect (fx, j, n) on another object of the same
+   call (0 none; 1 append the number n to argument array j; 2 set the length of argument array j to n;
+   3 append n to the receiver; 4 set the receiver's length to n), returns the number p, and has no setter
    (such a property is stored with writable = false, so that [[CanPut]] is false, 8.12.4) *)
 Inductive val := VUndef | VNull | VBool (b : bool) | VNum (z : Z) | VDbl (bits : Z) | VStr (s : list Z)
-               | VGet (id p : Z).
+               | VGet (id p fx j n : Z).
 
 Definition val_eqb (a b : val) : bool :=
   match a, b with
@@ -41,7 +43,7 @@ Definition val_eqb (a b : val) : bool :=
   | VNum x, VNum y => x =? y
   | VDbl x, VDbl y => x =? y
   | VStr x, VStr y => zlist_eqb x y
-  | VGet a b, VGet c d => (a =? c) && (b =? d)
+  | VGet a b c d e, VGet a' b' c' d' e' => (a =? a') && (b =? b') && (c =? c') && (d =? d') && (e =? e')
   | _, _ => false
   end.
 
@@ -65,7 +67,7 @@ Definition to_boolean (v : val) : bool :=
   | VNum z => negb (z =? 0)
   | VDbl b => negb ((b =? nan_bits) || (b =? nzero_bits))
   | VStr s => match s with [] => false | _ => true end
-  | VGet _ _ => true
+  | VGet _ _ _ _ _ => true
   end.
 
 (* ---------- decimal strings ---------- *)
@@ -111,7 +113,7 @@ Definition to_string (v : val) : option (list Z) :=
       else if b =? nzero_bits then Some [48]
       else None
   | VStr s => Some s
-  | VGet _ _ => None
+  | VGet _ _ _ _ _ => None
   end.
 
 (* ---------- numeric conversions (9.3, 9.4, 9.6) on the exact view ---------- *)
@@ -136,7 +138,7 @@ Definition to_integer (v : val) : option xint :=
               | [] => Some (XI 0)
               | _ => option_map XI (parse_digits s 0)
               end
-  | VGet _ _ => None
+  | VGet _ _ _ _ _ => None
   end.
 
 Definition two32 : Z := 4294967296.
@@ -173,7 +175,7 @@ Definition valid_length (v : val) : option (option Z) :=
                      | None => None
                      end
               end
-  | VGet _ _ => None
+  | VGet _ _ _ _ _ => None
   end.
 
 (* relative index clamp used by slice/splice (15.4.4.10 steps 5-8, 15.4.4.12 steps 5-6) *)
@@ -418,6 +420,16 @@ Definition def_array (o : obj) (k : key) (d : desc) (throw : bool) : obj * dres 
     end
   end.
 
+(* an array literal with holes (elements VGet are counting getters) over a given prototype *)
+Definition lit_obj (proto : list (Z * prop)) (l : list (option val)) : obj :=
+  let fix go (l : list (option val)) (k : Z) : list (key * prop) :=
+    match l with
+    | [] => []
+    | None :: l' => go l' (k + 1)
+    | Some v :: l' => (KI k, mkP v (match v with VGet _ _ _ _ _ => false | _ => true end) true true) :: go l' (k + 1)
+    end in
+  mkO true true ((KLen, mkP (VNum (Z.of_nat (length l))) true false false) :: go l 0) proto.
+
 (* ---------- state, callbacks, monad ---------- *)
 (* what the callback does on its n-th invocation: an optional sloppy-mode
    mutation of the receiver, then throw or return *)
@@ -429,8 +441,19 @@ Inductive mut := MNone | MPut (k : key) (v : val) | MDel (k : key) | MAppend (v 
 Record cbstep := mkCb { cb_mut : mut; cb_throw : bool; cb_ret : val }.
 
 (* s_lg: the receiver's length is a counting getter; every [[Get]] of "length" by a method is logged as [9] *)
-Record st := mkS { s_o : obj; s_log : list (list val); s_cb : list cbstep; s_lg : bool }.
-Definition with_o (s : st) (o : obj) : st := mkS o (s_log s) (s_cb s) (s_lg s).
+(* s_args: the array arguments of the call (concat), which getters may change while the call runs *)
+Record st := mkS { s_o : obj; s_log : list (list val); s_cb : list cbstep; s_lg : bool; s_args : list obj }.
+Definition with_o (s : st) (o : obj) : st := mkS o (s_log s) (s_cb s) (s_lg s) (s_args s).
+Fixpoint replace_nth {A} (n : nat) (x : A) (l : list A) : list A :=
+  match l, n with
+  | [], _ => []
+  | _ :: t, O => x :: t
+  | h :: t, S n' => h :: replace_nth n' x t
+  end.
+(* object number w of the call: -1 the receiver, j >= 0 the j-th array argument *)
+Definition sel_obj (s : st) (w : Z) : option obj := if w <? 0 then Some (s_o s) else nth_error (s_args s) (Z.to_nat w).
+Definition upd_obj (s : st) (w : Z) (o : obj) : st :=
+  if w <? 0 then with_o s o else mkS (s_o s) (s_log s) (s_cb s) (s_lg s) (replace_nth (Z.to_nat w) o (s_args s)).
 
 Inductive R (A : Type) := Ok (a : A) (s : st) | Ex (cls : Z) (s : st).
 Arguments Ok {A}. Arguments Ex {A}.
@@ -457,7 +480,8 @@ Record dialect := mkDia {
   dia_rel : val -> Z -> option Z;            (* relative start/end -> index in [0,len] *)
   dia_cnt : val -> Z -> option Z;            (* deleteCount -> [0,bound] *)
   dia_indexof : val -> Z -> option (option Z);
-  dia_lastindexof : val -> Z -> option (option Z)
+  dia_lastindexof : val -> Z -> option (option Z);
+  dia_rev_has_first : bool   (* reverse tests HasProperty(lower), HasProperty(upper) before it Gets the values *)
 }.
 
 Definition es5 : dialect :=
@@ -465,7 +489,8 @@ Definition es5 : dialect :=
         (fun v len => option_map (fun r => clamp_rel r len) (to_integer v))
         (fun v b => option_map (fun r => clamp_cnt r b) (to_integer v))
         (fun v len => option_map (fun r => clamp_indexof r len) (to_integer v))
-        (fun v len => option_map (fun r => clamp_lastindexof r len) (to_integer v)).
+        (fun v len => option_map (fun r => clamp_lastindexof r len) (to_integer v))
+        false.
 
 Section Methods.
 Variable D : dialect.
@@ -481,18 +506,36 @@ Definition put (o : obj) (k : key) (v : val) (throw : bool) : obj * dres :=
        | None => define_own o k (desc_full v) throw
        end.
 
-(* [[Get]]: a counting getter logs its call *)
-Definition m_get (k : key) : M val :=
-  fun s => match get (s_o s) k with
-           | VGet id p => Ok (VNum p) (mkS (s_o s) (s_log s ++ [[VNum 8; VNum id]]) (s_cb s) (s_lg s))
-           | v => Ok v s
+(* side effect of a getter: sloppy-mode A[A.length] = n / A.length = n on an argument array or on the receiver *)
+Definition apply_fx (fx j n : Z) (s : st) : st :=
+  let w := if (fx =? 1) || (fx =? 2) then j else -1 in
+  match sel_obj s w with
+  | None => s
+  | Some o =>
+      if (fx =? 1) || (fx =? 3) then upd_obj s w (fst (put o (KI (len_of o)) (VNum n) false))
+      else if (fx =? 2) || (fx =? 4) then upd_obj s w (fst (put o KLen (VNum n) false))
+      else s
+  end.
+(* [[Get]] on object w of the call: a counting getter logs its call, then acts, then returns *)
+Definition m_get_in (w : Z) (k : key) : M val :=
+  fun s => match sel_obj s w with
+           | None => Ex (-1) s
+           | Some o =>
+               match get o k with
+               | VGet id p fx j n =>
+                   Ok (VNum p) (apply_fx fx j n (mkS (s_o s) (s_log s ++ [[VNum 8; VNum id]]) (s_cb s) (s_lg s) (s_args s)))
+               | v => Ok v s
+               end
            end.
-Definition m_has (k : key) : M bool := fun s => Ok (has (s_o s) k) s.
+Definition m_has_in (w : Z) (k : key) : M bool :=
+  fun s => match sel_obj s w with None => Ex (-1) s | Some o => Ok (has o k) s end.
+Definition m_get (k : key) : M val := m_get_in (-1) k.
+Definition m_has (k : key) : M bool := m_has_in (-1) k.
 Definition m_put (k : key) (v : val) : M unit := lift_d (fun o => put o k v true) ;;; ret tt.
 Definition m_del (k : key) : M unit := lift_d (fun o => delete o k true) ;;; ret tt.
 Definition m_len : M Z :=
   fun s =>
-    let s1 := if s_lg s then mkS (s_o s) (s_log s ++ [[VNum 9]]) (s_cb s) true else s in
+    let s1 := if s_lg s then mkS (s_o s) (s_log s ++ [[VNum 9]]) (s_cb s) true (s_args s) else s in
     (v <- m_get KLen ;; opt_m (to_uint32 v)) s1.
 (* steps 2-4 of 15.4.4.16-22: len first, then IsCallable *)
 Definition m_len_checked (c : bool) : M Z :=
@@ -501,18 +544,18 @@ Definition m_len_checked (c : bool) : M Z :=
 (* one invocation of the callback: log (this-code :: arguments), then do what the script says *)
 Definition m_call (cur : Z) (entry : list val) : M val :=
   fun s =>
-    let s1 := mkS (s_o s) (s_log s ++ [entry]) (s_cb s) (s_lg s) in
+    let s1 := mkS (s_o s) (s_log s ++ [entry]) (s_cb s) (s_lg s) (s_args s) in
     match s_cb s with
     | [] => Ok VUndef s1
     | c :: rest =>
-        let s2 := mkS (s_o s1) (s_log s1) rest (s_lg s) in
+        let s2 := mkS (s_o s1) (s_log s1) rest (s_lg s) (s_args s) in
         let r := match cb_mut c with
                  | MNone => (s_o s2, DTrue)
                  | MPut k v => put (s_o s2) k v false
                  | MDel k => delete (s_o s2) k false
                  | MPutCur v => put (s_o s2) (KI cur) v false
                  | MDelCur => delete (s_o s2) (KI cur) false
-                 | MGetCur id p => define_own (s_o s2) (KI cur) (mkD (Some (VGet id p)) (Some false) (Some true) (Some true)) true
+                 | MGetCur id p => define_own (s_o s2) (KI cur) (mkD (Some (VGet id p 0 0 0)) (Some false) (Some true) (Some true)) true
                  | MAppend v =>
                      match to_uint32 (get (s_o s2) KLen) with
                      | None => (s_o s2, DThrow (-1))
@@ -561,7 +604,8 @@ Inductive rv := RVal (v : val) | RArr (l : list (option val)) | RThis.
 (* arguments of a method call *)
 Inductive marg :=
 | AV (v : val)                       (* a primitive *)
-| AA (l : list (option val))         (* a fresh array literal with holes *)
+| AA (l : list (option val))         (* a fresh array literal with holes; elements VGet are counting getters *)
+| AR                                 (* the receiver itself, passed as an argument *)
 | ACb                                (* the scripted callback function *)
 | AT.                                (* the marker object T (used as thisArg) *)
 
@@ -585,11 +629,12 @@ Definition callable (a : option marg) : bool := match a with Some ACb => true | 
 
 
 (* read [n] elements starting at [from] the way slice/splice/concat do: hole where HasProperty is false *)
-Definition read_range (n : nat) (from : Z) : M (list (option val)) :=
+Definition read_range_in (w : Z) (n : nat) (from : Z) : M (list (option val)) :=
   l <- fold_up n from [] (fun k acc =>
-         h <- m_has (KI k) ;;
-         if h then v <- m_get (KI k) ;; ret (Some v :: acc) else ret (None :: acc)) ;;
+         h <- m_has_in w (KI k) ;;
+         if h then v <- m_get_in w (KI k) ;; ret (Some v :: acc) else ret (None :: acc)) ;;
   ret (rev l).
+Definition read_range (n : nat) (from : Z) : M (list (option val)) := read_range_in (-1) n from.
 
 (* 15.4.4.5 *)
 Definition join_elem (v : val) : M (list Z) :=
@@ -632,15 +677,22 @@ Definition m_reverse (args : list marg) : M rv :=
   n <- cnt (len / 2) ;;
   for_up n 0 (fun lower =>
     let upper := len - lower - 1 in
-    lv <- m_get (KI lower) ;;
-    uv <- m_get (KI upper) ;;
-    le <- m_has (KI lower) ;;
-    ue <- m_has (KI upper) ;;
-    if le && ue then m_put (KI lower) uv ;;; m_put (KI upper) lv
-    else if ue then
-      m_put (KI lower) uv ;;; m_del (KI upper)
-    else if le then m_del (KI lower) ;;; m_put (KI upper) lv
-    else ret tt) ;;;
+    if dia_rev_has_first D then
+      le <- m_has (KI lower) ;;
+      ue <- m_has (KI upper) ;;
+      if le && ue then lv <- m_get (KI lower) ;; uv <- m_get (KI upper) ;; m_put (KI lower) uv ;;; m_put (KI upper) lv
+      else if ue then uv <- m_get (KI upper) ;; m_put (KI lower) uv ;;; m_del (KI upper)
+      else if le then lv <- m_get (KI lower) ;; m_del (KI lower) ;;; m_put (KI upper) lv
+      else ret tt
+    else
+      lv <- m_get (KI lower) ;;                (* 15.4.4.8 step 6.c - 6.f: both [[Get]]s, then both [[HasProperty]]s *)
+      uv <- m_get (KI upper) ;;
+      le <- m_has (KI lower) ;;
+      ue <- m_has (KI upper) ;;
+      if le && ue then m_put (KI lower) uv ;;; m_put (KI upper) lv
+      else if ue then m_put (KI lower) uv ;;; m_del (KI upper)
+      else if le then m_del (KI lower) ;;; m_put (KI upper) lv
+      else ret tt) ;;;
   ret RThis.
 
 (* move one element: Put(to, Get(from)) if from is present, else Delete(to) *)
@@ -840,43 +892,25 @@ Definition m_reduceright (args : list marg) : M rv :=
       end
   end.
 
-(* 15.4.4.4 (Array receivers; array arguments are fresh literals that see the same prototype) *)
-Definition lit_obj (proto : list (Z * prop)) (l : list (option val)) : obj :=
-  let fix go (l : list (option val)) (k : Z) : list (key * prop) :=
-    match l with
-    | [] => []
-    | None :: l' => go l' (k + 1)
-    | Some v :: l' => (KI k, mkP v true true true) :: go l' (k + 1)
-    end in
-  mkO true true ((KLen, mkP (VNum (Z.of_nat (length l))) true false false) :: go l 0) proto.
-
-Definition read_all (o : obj) : option (list (option val)) :=
-  let len := len_of o in
-  if loop_limit <? len then None else
-  Some (map (fun k => let k := Z.of_nat k in if has o (KI k) then Some (get o (KI k)) else None)
-            (seq 0 (Z.to_nat len))).
-
-Fixpoint concat_items (proto : list (Z * prop)) (items : list marg) : option (list (option val)) :=
+(* 15.4.4.4 (Array receivers).  The items are processed strictly one after the other: the length of an
+   array item is read when the item is reached (step 5.b.ii), after every [[Get]] on the earlier items *)
+Definition read_arr (w : Z) : M (list (option val)) :=
+  fun s => match sel_obj s w with
+           | None => Ex (-1) s
+           | Some o => (n <- cnt (len_of o) ;; read_range_in w n 0) s
+           end.
+Fixpoint concat_loop (items : list marg) (j : Z) : M (list (option val)) :=
   match items with
-  | [] => Some []
-  | AV v :: rest => option_map (fun r => Some v :: r) (concat_items proto rest)
-  | AA l :: rest =>
-      match read_all (lit_obj proto l), concat_items proto rest with
-      | Some a, Some r => Some (a ++ r)
-      | _, _ => None
-      end
-  | _ :: _ => None
+  | [] => ret []
+  | AV v :: rest => r <- concat_loop rest j ;; ret (Some v :: r)
+  | AA _ :: rest => a <- read_arr j ;; r <- concat_loop rest (j + 1) ;; ret (a ++ r)
+  | AR :: rest => a <- read_arr (-1) ;; r <- concat_loop rest j ;; ret (a ++ r)
+  | _ :: _ => throw (-1)
   end.
-
 Definition m_concat (args : list marg) : M rv :=
   fun s =>
     if negb (o_arr (s_o s)) then Ex (-1) s else
-    (n <- cnt (len_of (s_o s)) ;;
-     a <- read_range n 0 ;;
-     fun s' => match concat_items (o_proto (s_o s')) args with
-               | Some r => Ok (RArr (a ++ r)) s'
-               | None => Ex (-1) s'
-               end) s.
+    (a <- read_arr (-1) ;; r <- concat_loop args 0 ;; ret (RArr (a ++ r))) s.
 
 (* 15.4.4.2: join is looked up and called with NO arguments; a receiver without a callable join
    (here: every non-array) gets Object.prototype.toString *)
@@ -891,7 +925,7 @@ Definition locale_elem (v : val) : M (list Z) :=
   | VUndef | VNull => ret []
   | VNum z => if Z.abs z <? 1000 then opt_m (to_string v) else throw (-1)
   | VStr _ | VBool _ => opt_m (to_string v)
-  | VDbl _ | VGet _ _ => throw (-1)
+  | VDbl _ | VGet _ _ _ _ _ => throw (-1)
   end.
 Definition m_tolocalestring (args : list marg) : M rv :=
   len <- m_len ;;
@@ -944,11 +978,18 @@ Definition seal_all (D : dialect) (freeze : bool) (o : obj) : obj * dres :=
 Definition dres_outcome (r : dres) (ok : rv) : outcome :=
   match r with DThrow c => Thrown c | _ => Ret ok end.
 
+Fixpoint arg_arrays (proto : list (Z * prop)) (args : list marg) : list obj :=
+  match args with
+  | [] => []
+  | AA l :: rest => lit_obj proto l :: arg_arrays proto rest
+  | _ :: rest => arg_arrays proto rest
+  end.
+
 Definition call_method (D : dialect) (o : obj) (m : Z) (args : list marg) (cbs : list cbstep) (lg : bool)
   : obj * outcome * list (list val) :=
   match method D m with
   | None => (o, Thrown (-1), [])
-  | Some f => match f args (mkS o [] cbs lg) with
+  | Some f => match f args (mkS o [] cbs lg (arg_arrays (o_proto o) args)) with
               | Ok r s => (s_o s, Ret r, s_log s)
               | Ex c s => (s_o s, Thrown c, s_log s)
               end
